@@ -687,6 +687,9 @@ func init() {
 										if tier != "thorough" && rng.Intn(330) != 0 || tier == "thorough" && rng.Intn(2) != 0 || pre != "" && rng.Intn(4) != 0 {
 											continue
 										}
+										if tier == "thorough" && key != 0 && rng.Intn(4) != 0 {
+											continue // keyed side (27 finishers with the key placements): an eighth of the pairs
+										}
 										one(kind, pre, allow, key, unscoped, []c09Call{a, b}, fin)
 									}
 								}
